@@ -2,7 +2,7 @@ import MpVerif.C09.Lemmas
 /-!
 Line driver for C09.  One scenario per line:
 
-    run <flags> <stub> <ampl> <opts> <objno> <ncons> <nvars> <pcons> <pvars> <open> <flush> <fault> <code> <havex> <havepi>
+    run <flags> <stub> <ampl> <opts> <objno> <justExport> <ncons> <nvars> <pcons> <pvars> <open> <flush> <fault> <code> <havex> <havepi>
 
 * `<flags>`: `-` or a string over `s e d i x` (wantsol, noecho, dashdash, info, invalid)
 * `<opts>`:  `-` or comma-separated items: tokens `o` (ok), `b` (bad), `v` (invalidValue), `w<n>` (wantsol=n),
@@ -72,12 +72,13 @@ def parseBool : String → Option Bool
 
 def parseScenario (ws : List String) : Option Scenario :=
   match ws with
-  | [flags, stub, ampl, opts, objno, ncons, nvars, pcons, pvars, op, fl, fault, code, hx, hp] => do
+  | [flags, stub, ampl, opts, objno, jexp, ncons, nvars, pcons, pvars, op, fl, fault, code, hx, hp] => do
     let flags ← if flags == "-" then some [] else allSome (flags.toList.map parseFlag)
     let opts ← if opts == "-" then some [] else allSome ((opts.splitOn ",").map parseOptItem)
     let stub ← parseBool stub
     let ampl ← parseBool ampl
     let objno ← parseBool objno
+    let jexp ← parseBool jexp
     let ncons ← ncons.toNat?
     let nvars ← nvars.toNat?
     let pcons ← pcons.toNat?
@@ -88,7 +89,7 @@ def parseScenario (ws : List String) : Option Scenario :=
     let code ← code.toInt?
     let hx ← parseBool hx
     let hp ← parseBool hp
-    pure { flags := flags, hasStub := stub, ampl := ampl, opts := opts, objnoTooBig := objno,
+    pure { flags := flags, hasStub := stub, ampl := ampl, opts := opts, objnoTooBig := objno, justExport := jexp,
            dims := ⟨ncons, nvars⟩, partialDims := ⟨pcons, pvars⟩, out := ⟨op, fl⟩, fault := fault, answer := ⟨code, hx, hp⟩ }
   | _ => none
 
